@@ -90,6 +90,13 @@ func genCase(rt *rapid.T) Case {
 			c.Steps = append(c.Steps, Step{Op: &aclgen.Op{Kind: "request_remove", Actor: rapid.IntRange(1, n-1).Draw(rt, "leaver")}})
 		case 1: // a pending join request
 			c.Steps = append(c.Steps, Step{Op: &aclgen.Op{Kind: "request_join", Actor: rapid.IntRange(5, n-1).Draw(rt, "joiner"), Ref: rapid.IntRange(-1, 1).Draw(rt, "inv")}})
+		case 4: // a hand-made invite of any shape, immediately used by somebody
+			inv := &aclgen.Forge{Author: rapid.IntRange(0, n-1).Draw(rt, "invAuthor"), Contents: []aclgen.FContent{{
+				Kind: "invite", Perm: rapid.IntRange(0, 5).Draw(rt, "invPerm"), Variant: rapid.IntRange(0, 7).Draw(rt, "invVariant")}}}
+			join := &aclgen.Forge{Author: rapid.IntRange(3, n-1).Draw(rt, "joiner"), Contents: []aclgen.FContent{{
+				Kind: rapid.SampledFrom([]string{"invite_join", "invite_join", "request_join"}).Draw(rt, "joinKind"), Ref: 1000,
+				Perm: rapid.IntRange(0, 5).Draw(rt, "joinPerm"), Variant: rapid.SampledFrom([]int{0, 0, 0, 1, 3, 6}).Draw(rt, "joinVariant")}}}
+			c.Steps = append(c.Steps, Step{F: inv}, Step{F: join})
 		case 3: // the owner adds somebody directly (possibly an account with a pending request)
 			c.Steps = append(c.Steps, Step{Op: &aclgen.Op{Kind: "add", Actor: 0, Target: rapid.IntRange(5, n-1).Draw(rt, "added"), Perm: rapid.SampledFrom([]int{aclgen.Admin, aclgen.Writer, aclgen.Reader}).Draw(rt, "addperm")}})
 		case 2:
